@@ -1,5 +1,5 @@
 //@PROBE file=src/trackers/visual_sort/batch_api.rs test=verif_probe_tracker_kinds clauses=tracker_kinds
-//@BOUND the four tracker kinds (Sort, BatchSort, VisualSort, BatchVisualSort) x {IoU(0.3), Mahalanobis} x store shards 1..=2 (NON-default Kalman weights: loose with one shard, tight with two) x voting workers 1..=2, history length 4 != max idle 2; one 12-step script over two scenes occupying the SAME image region (scene 2 absent from one call; objects that disappear for 1, 2 - a gap of exactly max idle + 1 epochs -, 3 and 4 steps, a small box below the minimal area that carries a feature, an object that loses its feature after having been attached by appearance, negative / large angles, confidence 0.6, an object that jumps 150 px keeping its appearance, a feature-less detection covering a third of another one; visual kinds with Euclidean(0.5) / Cosine(0.2) appearance metrics and own-area thresholds use=collect=0.4 / collect-only 0.8; per record also the number of collected features and the stored own-area share): (1) the per-call record contract, (2) each scene's trace in the two-scene run equals the run of that scene alone up to renaming of ids, an expired track is never continued, visual voting is reported only for detections with a feature on the appearance trackers, (3) each batch kind equals its simple kind per scene up to renaming, (4) idle listing after the last step; wasted() hands every track out once, with box and feature histories that hold the most recent min(length, history) entries in arrival order; custom ids sometimes absent; batch requests filled round-robin across the scenes; the stored own-area share equals the library's share of the detection among the detections of its own scene
+//@BOUND the four tracker kinds (Sort, BatchSort, VisualSort, BatchVisualSort) x {IoU(0.3), Mahalanobis} x store shards 1..=2 (NON-default Kalman weights: loose with one shard, tight with two) x voting workers 1..=2, history length 4 != max idle 2; one 12-step script over two scenes occupying the SAME image region (scene 2 absent from one call; objects that disappear for 1, 2 - a gap of exactly max idle + 1 epochs -, 3 and 4 steps, a small box below the minimal area that carries a feature, an object that loses its feature after having been attached by appearance, negative / large angles, confidence 0.6 and - one object - 0.02, below the minimal confidence, an object that jumps 150 px keeping its appearance, a feature-less detection covering a third of another one; visual kinds with Euclidean(0.5) / Cosine(0.2) appearance metrics and own-area thresholds use=collect=0.4 / collect-only 0.8; per record also the number of collected features and the stored own-area share): (1) the per-call record contract, (2) each scene's trace in the two-scene run equals the run of that scene alone up to renaming of ids, an expired track is never continued, visual voting is reported only for detections with a feature on the appearance trackers, (3) each batch kind equals its simple kind per scene up to renaming, (4) idle listing after the last step; wasted() hands every track out once, with box and feature histories that hold the most recent min(length, history) entries in arrival order; custom ids sometimes absent; batch requests filled round-robin across the scenes; the stored own-area share equals the library's share of the detection among the detections of its own scene
 #[cfg(test)]
 mod verif_probe_tracker_kinds {
     // Bounded stand-in for the tracker-level clauses of C01 / C03 / C04 over ALL tracker kinds (predict* drive store
@@ -37,6 +37,7 @@ mod verif_probe_tracker_kinds {
             (1, 6) => step <= 3 || step >= 6,          // two missing steps: a gap of exactly max idle + 1 epochs - expired, never continued
             (2, 0) => step % 4 != 3,                   // same image region as (1, 0); scene 2 is absent from the call at step 7
             (2, 1) => step % 3 != 1,                   // same image region as (1, 3) after its jump
+            (2, 2) => step != 7 && step != 3,          // reported with confidence 0.02, BELOW the trackers' minimal confidence 0.05
             _ => false,
         }
     }
@@ -50,6 +51,7 @@ mod verif_probe_tracker_kinds {
             (1, 4) => (120.0 + 2.0 * s, 100.0, Some(-0.3 + 0.01 * s), 0.5, 60.0),
             (1, 5) => (1500.0, 600.0, None, 0.5, 2.0),
             (1, 6) => (1800.0 + s, 500.0 - s, Some(1.0), 0.7, 50.0),
+            (2, 2) => (2200.0 + 0.5 * s, 800.0, Some(-0.8), 0.9, 45.0),
             _ => (1150.0 + s, 300.0, Some(0.4), 0.6, 70.0), // (2, 1)
         };
         // 16-dim appearance features. Euclidean runs: a unit vector per object plus a small wobble. Cosine runs: the same, but the
@@ -60,7 +62,7 @@ mod verif_probe_tracker_kinds {
         // (1, 4) never carries a feature; the jumping object (1, 3) loses its feature from step 9 on: after its appearance
         // attachments it is attached by position again
         let feat = if scene == 1 && (obj == 4 || (obj == 3 && step >= 9)) { None } else { Some(feat) };
-        Det { bbox: Universal2DBox::new_with_confidence(x, y, ang, asp, h, 0.6), feat, cid: if (step + obj) % 3 == 2 { None } else { Some((1000 * scene as i64 + 10 * obj as i64) * 100 + step as i64) }, obj }
+        Det { bbox: Universal2DBox::new_with_confidence(x, y, ang, asp, h, if (scene, obj) == (2, 2) { 0.02 } else { 0.6 }), feat, cid: if (step + obj) % 3 == 2 { None } else { Some((1000 * scene as i64 + 10 * obj as i64) * 100 + step as i64) }, obj }
     }
 
     #[derive(Clone, Copy, Debug, PartialEq, Eq, Hash)]
